@@ -34,8 +34,8 @@ EXHAUSTIVE_SCOPE = {'quick': 'array matrix (dtype x rank x layout x length) exha
                              'tables and params sampled', 'thorough': 'same matrix; larger random part'}
 FLOORS = {'quick': {'evaluations': 15000, 'distinct_nontrivial': 3000},
           'thorough': {'evaluations': 500000, 'distinct_nontrivial': 100000}}
-ASSUMPTIONS = ['not representable by the formats themselves, hence not generated: str keys that are integer '
-               'literals, strings that int()/float() accept, bool/None table cells, strings with line '
+ASSUMPTIONS = ['not representable by the formats themselves, hence not generated: top-level str keys that are integer '
+               'literals (nested ones are kept as strings and are generated), strings that int()/float() accept, bool/None table cells, strings with line '
                'breaks, params strings with quotes/backslashes, NaN/inf in params, int keys inside nested '
                'dictionaries, tuples']
 NSHARDS = 16
@@ -111,8 +111,10 @@ def rand_value(rng, depth=0):
                           LAYOUTS[int(rng.integers(0, 4))], [0, 1, 2, 9, 10, 11, 12, 30][int(rng.integers(0, 8))], rng)
     if k in (8, 9):
         return [rand_value(rng, depth + 1) for _ in range(int(rng.integers(0, 4)))]
-    return {('k%d' % i if i % 2 else WORDS[(i * 5 + depth) % 16] + str(i)): rand_value(rng, depth + 1)
-            for i in range(int(rng.integers(0, 4)))}
+    # (these dictionaries are always nested: digit-only string keys stay strings there - only top-level keys are
+    # turned into integers)
+    return {('k%d' % i if i % 3 == 1 else (['0', '2024', '-12', '007'][(i + depth) % 4] if i % 3 == 2 else WORDS[(i * 5 + depth) % 16] + str(i))):
+            rand_value(rng, depth + 1) for i in range(int(rng.integers(0, 5)))}
 
 
 def run_shard(desc, ctx):
@@ -287,6 +289,8 @@ def _tsv_simple(case, ctx, d):
     data = {}
     for _ in range(int(rng.integers(0, 8))):
         cid = int(rng.integers(0, 70000)) if rng.random() < 0.9 else -int(rng.integers(1, 9))
+        if rng.random() < 0.08:
+            cid = [2 ** 53 + 1, 10 ** 17 + 7, 2 ** 63 - 1, 2 ** 53 + 3, 2 ** 31, 2 ** 32 + 1][int(rng.integers(0, 6))]     # 64-bit-wide id spaces
         k = int(rng.integers(0, 3))
         if k == 0:
             v = int(rng.integers(-50, 5000))
